@@ -224,7 +224,19 @@ func sinkObjects() map[int]sinkObj {
 	content := "q BT /F1 12 Tf 10 10 Td (A) Tj ET /CS0 cs 0.5 0.5 0.5 sc 0 0 10 10 re f /Sh0 sh /Sh1 sh /Im0 Do /P0 gs /Pat cs /Pt0 scn 0 0 5 5 re f Q\n"
 	return map[int]sinkObj{
 		1: {dict: "/Type /Catalog /Pages 2 0 R /Metadata 20 0 R"},
-		2: {dict: "/Type /Pages /Kids [3 0 R] /Count 1"},
+		2: {dict: "/Type /Pages /Kids [3 0 R 40 0 R 3 0 R] /Count 2"},
+		// a second page that reaches the same indirect objects through its own dictionaries
+		40: {dict: "/Type /Page /Parent 2 0 R /MediaBox [0 0 200 200] /Contents 21 0 R /Resources << /Font << /F1 5 0 R /G3 22 0 R >> " +
+			"/ColorSpace << /CS0 [/ICCBased 10 0 R] /CS1 [/ICCBased 10 0 R] /CS2 36 0 R /CS3 36 0 R >> /Shading << /Sh0 11 0 R /Sh2 41 0 R /Sh3 41 0 R >> " +
+			"/XObject << /Im0 14 0 R /Im1 14 0 R /Fm0 18 0 R /Fm1 18 0 R >> /Pattern << /Pt0 17 0 R /Pt1 17 0 R >> " +
+			"/ExtGState << /Q1 << /Type /ExtGState /SMask 30 0 R /TR 32 0 R /HT 35 0 R /BG 33 0 R /UCR 33 0 R >> " +
+			"/Q2 << /Type /ExtGState /SMask 30 0 R /TR 32 0 R /HT 35 0 R /BG 33 0 R /UCR 33 0 R >> " +
+			"/Q3 << /Type /ExtGState /SMask 31 0 R /TR 37 0 R /TR2 37 0 R /BG2 12 0 R /UCR2 12 0 R >> /Q4 34 0 R /Q5 99 0 R /Q6 99 0 R >> " +
+			"/Properties << /MC0 33 0 R /MC1 33 0 R >> >>"},
+		35: {raw: "/Default"},
+		36: {raw: "/DeviceGray"},
+		37: {raw: "/Identity"},
+		41: {dict: "/ShadingType 2 /ColorSpace 36 0 R /Coords [0 0 1 1] /Function [12 0 R 12 0 R 13 0 R 13 0 R] /Extend [true true]"},
 		3: {dict: "/Type /Page /Parent 2 0 R /MediaBox [0 0 200 200] /Contents [4 0 R 21 0 R] /Resources << /Font << /F1 5 0 R /F3 22 0 R >> " +
 			"/ColorSpace << /CS0 [/ICCBased 10 0 R] /Pat [/Pattern /DeviceRGB] >> /Shading << /Sh0 11 0 R /Sh1 15 0 R >> " +
 			"/XObject << /Im0 14 0 R /Fm0 18 0 R >> /Pattern << /Pt0 17 0 R >> /ExtGState << /P0 << /Type /ExtGState /SMask << /Type /Mask /S /Luminosity /G 18 0 R >> >> " +
